@@ -7,13 +7,20 @@ DS = 'gse_decap::DecapStatus'
 MUST_PKT = {'ErrorCrc', 'ErrorMemory', 'ErrorUnkownMandatoryHeader', 'ErrorNoLabelSaved', 'ErrorLabelBroadcastSaved', 'ErrorLabelReUseSaved'}
 
 
+RGH = 'gse_decap::read_gse_header'
+
+
 def run(ck):
     f = ck.facts
 
     def acquired(I, w, frame, site, args, rv):
         w.mem[('G', 'acq')] = ('enum', ((1, ()),))
+
+    def decoded(I, w, frame, site, args, rv):
+        # what read_gse_header answered (None / Some): a keyed ghost, so padding and packet paths are never merged
+        w.mem[('G', 'rgh')] = ('enum', tuple((v_, ()) for v_, _ in rv[1])) if rv[0] == 'enum' else ('top', None, 'ghost', 'rgh')
     a = ck.analyse(DEC + 'decap', decap_cfg(f, {'call_hooks': c03.kind_hooks(),
-                                                'ret_hooks': {TRAIT_MEM + 'new_pdu': acquired, TRAIT_MEM + 'new_frag': acquired, TRAIT_MEM + 'take_frag': acquired}}), tag='c10')
+                                                'ret_hooks': {TRAIT_MEM + 'new_pdu': acquired, TRAIT_MEM + 'new_frag': acquired, TRAIT_MEM + 'take_frag': acquired, RGH: decoded}}), tag='c10')
     buf = a.arg('buffer')
     blen = buf[3]
     gse = c03.ghost_gse_len(a, None)
@@ -59,6 +66,47 @@ def run(ck):
                     else:
                         ck.finding('C10.R4', DEC + 'decap', f"needs-trailing-bytes:{name}", f"decap returning {name}: this outcome is impossible when the buffer ends with the packet (it depends on bytes that follow)")
     ck.rule('C10.R1 outcomes of decap examined', nret, 20)
+    # ---- R5 padding is recognised.  C14.R5 shows that read_gse_header answers None exactly for the padding pattern (S = 0,
+    # E = 0, LT = 00).  Here: every frame remainder of two bytes or more is decoded with read_gse_header(be16(buffer[0..2])),
+    # and a None answer ends in Ok(Padding) consuming the rest of the frame (and nothing else does).
+    hkey = ('be', buf[1], Lin.c(0), 2)
+    npad = ndec = 0
+    for r in a.events('call'):
+        if r.data[1] != RGH:
+            continue
+        ndec += 1
+        arg = r.data[3][0]
+        hw = ATOMS.by_key.get(hkey)
+        ck.obligations += 1
+        if hw is not None and arg[0] == 'int' and r.data[5].store.entails_eq(arg[1], Lin.atom(hw)):
+            ck.discharged += 1
+        else:
+            ck.finding('C10.R5', DEC + 'decap', 'header-word', 'decap does not decode the big-endian word made of the first two bytes of the buffer', r.site)
+    for w, rv in a.rets:
+        g = ghost(w, 'rgh')
+        for v, fs in (ret_alts(rv) or []):
+            outcome, c = fs[0][1][0], fs[0][1][1][1]
+            names = [f.variant_name(DS if v == 0 else DERR, ov) for ov, _ in outcome[1]] if outcome[0] == 'enum' else ['?']
+            is_padding = v == 0 and names == ['Padding']
+            ck.obligations += 1
+            ok = True
+            if g is None:
+                # returned without decoding a header: only remainders shorter than two bytes may do that
+                if is_padding or not w.store.entails(le(blen, Lin.c(1))):
+                    ok = False
+                    ck.finding('C10.R5', DEC + 'decap', f"undecoded:{names}", f"decap can return {names} for a remainder of two bytes or more without decoding its header (padding would not be recognised)")
+            elif g[0] == 'enum' and len(g[1]) == 1 and g[1][0][0] == 0:
+                npad += 1
+                if not (is_padding and w.store.entails_eq(c, blen)):
+                    ok = False
+                    ck.finding('C10.R5', DEC + 'decap', f"padding-outcome:{names}", f"a remainder that starts with the padding pattern ends in {names} consuming {c.pretty()} instead of Ok(Padding) consuming the rest of the frame")
+            elif is_padding:
+                ok = False
+                ck.finding('C10.R5', DEC + 'decap', 'padding-for-packet', 'decap can answer Ok(Padding) for a header that is not the padding pattern')
+            if ok:
+                ck.discharged += 1
+    ck.rule('C10.R5 header decodings of decap', ndec, 1)
+    ck.rule('C10.R5 returns of decap after a padding header', npad, 1)
     # ---- R2 every slice of the input buffer read while handling a packet lies inside the packet
     nsl = 0
     for r in a.obligations():
@@ -85,7 +133,7 @@ def run(ck):
     for wname in ('encap', 'encap_frag', 'encap_ext'):
         wa = analyse_writer(ck, ENC + wname, extra=c09.ENCCFG)
         for r in wa.events('call'):
-            if r.data[1] != GEN_HDR or r.site[0] != ENC + wname:
+            if r.data[1] != GEN_HDR:
                 continue
             nh += 1
             kv = wa.I.read(r.data[5], r.data[3][0][1])
